@@ -1,15 +1,195 @@
 (** C16 — list operations agree with sequence semantics in all four list encodings.
-    Proved for all lists: the conversions produce the documented closed forms (C12_containers).
-    BOUNDED in-kernel grid on the generated constants: every list of length <= 3 over {0, 1}
-    (Church numerals), all 4 x 5 constructors/observers and the 18 pair-list library functions,
-    under NOR, HNO and HAP. *)
-From LC Require Import Spec.Encodings Model.Reduction Model.Convert Gen.Terms Proofs.Convert Proofs.Grids.
 
-Theorem C16_conversions : forall xs, into_pair_list xs = pair_list xs /\ into_church_list xs = church_list xs.
-Proof. intros; split; [apply into_pair_list_spec|apply into_church_list_spec]. Qed.
+    On the GENERATED constants of src/data/list/{pair,church,scott,parigot}.rs, for ALL lists (of arbitrary
+    closed element terms, [allc]) and ALL numbers:
+    (1) nil/cons/head/tail/is_nil of the four encodings are constructors and observers of sequences, both on
+        encoded lists and (head, tail, is_nil of a cons) for ARBITRARY element and tail terms (Church-list tail:
+        on encoded lists, since it is a fold);
+    (2) the Vec conversions (modelled loops of convert.rs) produce exactly the closed forms that repeated cons produces;
+    (3) each of the 18 pair-list library functions reduces to the encoding of the result of the corresponding
+        operation on Coq lists (stdlib length, nth, rev, app, map, fold_left, fold_right, filter, last, removelast,
+        combine, firstn, skipn, repeat; takeWhile/dropWhile defined here);
+    (4) hence (C07) reduce with NOR or HNO and limit 0 returns exactly that encoding when it is a normal form.
+    Termination under HAP is proved only on the bounded in-kernel grid (lists of length <= 3 over {0, 1}). *)
+From Coq Require Import List. Import ListNotations.
+From LC Require Import Spec.Encodings Spec.Confluence Spec.NorEval Model.Reduction Model.Convert Gen.Terms
+  Proofs.Sound Proofs.ReduceProps Proofs.Normalise Proofs.Convert Proofs.Grids Proofs.ChurchArith Proofs.PairList Proofs.OtherLists.
 
+(** (1) constructors and observers, on encoded lists *)
+Theorem C16_pair_basic : forall x r, closed x = true -> allc r ->
+  lc_list_pair_nil = pair_list [] /\
+  red (App (App lc_list_pair_cons x) (pair_list r)) (pair_list (x :: r)) /\
+  red (App lc_list_pair_head (pair_list (x :: r))) x /\
+  red (App lc_list_pair_tail (pair_list (x :: r))) (pair_list r) /\
+  red (App lc_list_pair_is_nil (pair_list [])) tru_t /\
+  red (App lc_list_pair_is_nil (pair_list (x :: r))) fls_t.
+Proof.
+  intros x r Cx Cr. repeat split.
+  - apply cons_law; auto. - apply head_law; auto. - apply tail_law; auto. - apply is_nil_nil. - apply is_nil_cons; auto.
+Qed.
+Theorem C16_church_basic : forall x r, closed x = true -> allc r ->
+  lc_list_church_nil = church_list [] /\
+  red (App (App lc_list_church_cons x) (church_list r)) (church_list (x :: r)) /\
+  red (App lc_list_church_head (church_list (x :: r))) x /\
+  red (App lc_list_church_tail (church_list (x :: r))) (church_list r) /\
+  red (App lc_list_church_is_nil (church_list [])) tru_t /\
+  red (App lc_list_church_is_nil (church_list (x :: r))) fls_t.
+Proof.
+  intros x r Cx Cr. repeat split.
+  - apply church_cons_law; auto. - apply church_head_law; auto. - apply church_tail_law; auto.
+  - apply (church_is_nil_law []); reflexivity.
+  - apply (church_is_nil_law (x :: r)). apply allc_cons_i; auto.
+Qed.
+Theorem C16_scott_basic : forall x r, closed x = true -> allc r ->
+  lc_list_scott_nil = scott_list [] /\
+  red (App (App lc_list_scott_cons x) (scott_list r)) (scott_list (x :: r)) /\
+  red (App lc_list_scott_head (scott_list (x :: r))) x /\
+  red (App lc_list_scott_tail (scott_list (x :: r))) (scott_list r) /\
+  red (App lc_list_scott_is_nil (scott_list [])) tru_t /\
+  red (App lc_list_scott_is_nil (scott_list (x :: r))) fls_t.
+Proof.
+  intros x r Cx Cr. repeat split.
+  - apply scott_cons_law; auto. - apply scott_head_law; auto. - apply scott_tail_law; auto.
+  - apply (scott_is_nil_law []); reflexivity.
+  - apply (scott_is_nil_law (x :: r)). apply allc_cons_i; auto.
+Qed.
+Theorem C16_parigot_basic : forall x r, closed x = true -> allc r ->
+  lc_list_parigot_nil = parigot_list [] /\
+  red (App (App lc_list_parigot_cons x) (parigot_list r)) (parigot_list (x :: r)) /\
+  red (App lc_list_parigot_head (parigot_list (x :: r))) x /\
+  red (App lc_list_parigot_tail (parigot_list (x :: r))) (parigot_list r) /\
+  red (App lc_list_parigot_is_nil (parigot_list [])) tru_t /\
+  red (App lc_list_parigot_is_nil (parigot_list (x :: r))) fls_t.
+Proof.
+  intros x r Cx Cr. repeat split.
+  - apply parigot_cons_law; auto. - apply parigot_head_law; auto. - apply parigot_tail_law; auto.
+  - apply (parigot_is_nil_law []); reflexivity.
+  - apply (parigot_is_nil_law (x :: r)). apply allc_cons_i; auto.
+Qed.
+
+(** (1') observers of a cons, for ARBITRARY element and tail terms *)
+Theorem C16_observers_any_payload : forall x t,
+  red (App lc_list_pair_head (App (App lc_list_pair_cons x) t)) x /\
+  red (App lc_list_pair_tail (App (App lc_list_pair_cons x) t)) t /\
+  red (App lc_list_pair_is_nil (App (App lc_list_pair_cons x) t)) fls_t /\
+  red (App lc_list_church_head (App (App lc_list_church_cons x) t)) x /\
+  red (App lc_list_church_is_nil (App (App lc_list_church_cons x) t)) fls_t /\
+  red (App lc_list_scott_head (App (App lc_list_scott_cons x) t)) x /\
+  red (App lc_list_scott_tail (App (App lc_list_scott_cons x) t)) t /\
+  red (App lc_list_scott_is_nil (App (App lc_list_scott_cons x) t)) fls_t /\
+  red (App lc_list_parigot_head (App (App lc_list_parigot_cons x) t)) x /\
+  red (App lc_list_parigot_tail (App (App lc_list_parigot_cons x) t)) t /\
+  red (App lc_list_parigot_is_nil (App (App lc_list_parigot_cons x) t)) fls_t.
+Proof.
+  intros x t. repeat split.
+  - apply pair_head_any. - apply pair_tail_any. - apply pair_isnil_any.
+  - apply church_head_any. - apply church_isnil_any.
+  - apply scott_head_any. - apply scott_tail_any. - apply scott_isnil_any.
+  - apply parigot_head_any. - apply parigot_tail_any. - apply parigot_isnil_any.
+Qed.
+
+(** (2) conversions *)
+Theorem C16_conversions : forall xs,
+  into_pair_list xs = pair_list xs /\ into_church_list xs = church_list xs /\
+  into_scott_list xs = scott_list xs /\ into_parigot_list xs = parigot_list xs.
+Proof.
+  intros; repeat split; [apply into_pair_list_spec|apply into_church_list_spec|apply into_scott_list_spec|apply into_parigot_list_spec].
+Qed.
+
+(** (3) the pair-list library *)
+Theorem C16_library_first_order : forall xs ys n x d, allc xs -> allc ys -> closed x = true ->
+  red (App lc_list_pair_length (pair_list xs)) (church (length xs)) /\
+  (n < length xs -> red (App (App lc_list_pair_index (church n)) (pair_list xs)) (nth n xs d)) /\
+  red (App lc_list_pair_reverse (pair_list xs)) (pair_list (rev xs)) /\
+  red (fold_left App xs (App lc_list_pair_list (church (length xs)))) (pair_list xs) /\
+  red (App (App lc_list_pair_append (pair_list xs)) (pair_list ys)) (pair_list (xs ++ ys)) /\
+  red (App lc_list_pair_last (pair_list xs)) (last xs lc_list_pair_nil) /\
+  red (App lc_list_pair_init (pair_list xs)) (pair_list (removelast xs)) /\
+  red (App (App lc_list_pair_zip (pair_list xs)) (pair_list ys))
+      (pair_list (map (fun p => pair_t (fst p) (snd p)) (combine xs ys))) /\
+  red (App (App lc_list_pair_take (church n)) (pair_list xs)) (pair_list (firstn n xs)) /\
+  red (App (App lc_list_pair_drop (church n)) (pair_list xs)) (pair_list (skipn n xs)) /\
+  red (App (App lc_list_pair_replicate (church n)) x) (pair_list (repeat x n)).
+Proof.
+  intros xs ys n x d Hx Hy Cx. repeat split.
+  - apply pair_length; auto. - intros; apply pair_index; auto. - apply pair_reverse; auto.
+  - apply pair_list_collect; auto. - apply pair_append; auto. - apply pair_last; auto. - apply pair_init; auto.
+  - apply pair_zip; auto. - apply pair_take; auto. - apply pair_drop; auto. - apply pair_replicate; auto.
+Qed.
+
+Theorem C16_library_higher_order : forall g a p pb xs ys, closed g = true -> closed a = true -> closed p = true ->
+  allc xs -> allc ys -> (forall x, In x xs -> red (App p x) (bool_t (pb x))) ->
+  red (App (App lc_list_pair_map g) (pair_list xs)) (pair_list (map (App g) xs)) /\
+  red (App (App (App lc_list_pair_foldl g) a) (pair_list xs)) (fold_left (fun acc x => App (App g acc) x) xs a) /\
+  red (App (App (App lc_list_pair_foldr g) a) (pair_list xs)) (fold_right (fun x acc => App (App g x) acc) a xs) /\
+  red (App (App (App lc_list_pair_zip_with g) (pair_list xs)) (pair_list ys))
+      (pair_list (map (fun q => App (App g (fst q)) (snd q)) (combine xs ys))) /\
+  red (App (App lc_list_pair_filter p) (pair_list xs)) (pair_list (filter pb xs)) /\
+  red (App (App lc_list_pair_take_while p) (pair_list xs)) (pair_list (takeWhile pb xs)) /\
+  red (App (App lc_list_pair_drop_while p) (pair_list xs)) (pair_list (dropWhile pb xs)).
+Proof.
+  intros g a p pb xs ys Cg Ca Cp Hx Hy Hd. repeat split.
+  - apply pair_map; auto. - apply pair_foldl; auto. - apply pair_foldr; auto. - apply pair_zip_with; auto.
+  - apply pair_filter; auto. - apply pair_take_while; auto. - apply pair_drop_while; auto.
+Qed.
+
+(** instances on lists of Church numerals, as exercised against the implementation *)
+Definition nums (l : list nat) : term := pair_list (map church l).
+Lemma allc_nums l : allc (map church l).
+Proof. induction l; [reflexivity|]. cbn [map]. apply allc_cons_i; auto. apply church_closed. Qed.
+Theorem C16_numeral_instances : forall l,
+  red (App lc_list_pair_length (nums l)) (church (length l)) /\
+  red (App lc_list_pair_reverse (nums l)) (nums (rev l)) /\
+  red (App (App lc_list_pair_map lc_num_church_succ) (nums l)) (nums (map S l)) /\
+  red (App (App lc_list_pair_filter lc_num_church_is_zero) (nums l)) (nums (filter (fun k => k =? 0) l)) /\
+  red (App (App (App lc_list_pair_foldl lc_num_church_add) (church 1)) (nums l)) (church (fold_left Nat.add l 1)).
+Proof.
+  intros l. pose proof (allc_nums l) as Hc. unfold nums. repeat split.
+  - rewrite <- (map_length church l). apply pair_length; auto.
+  - rewrite map_rev. apply pair_reverse; auto.
+  - rewrite map_map. eapply star_trans; [apply pair_map; auto; reflexivity|].
+    apply red_pl. clear Hc. induction l; cbn [map]; constructor; auto. apply church_succ.
+  - assert (E : map church (filter (fun k => k =? 0) l) =
+                filter (fun t => match dec_church t with Some 0 => true | _ => false end) (map church l)).
+    { clear Hc. induction l as [|k r IH]; [reflexivity|]. cbn [map filter]. rewrite dec_church_ok.
+      destruct k; cbn [Nat.eqb map]; rewrite IH; reflexivity. }
+    rewrite E. apply pair_filter; [reflexivity|exact Hc|].
+    intros x Hx. apply in_map_iff in Hx. destruct Hx as (k & <- & _). rewrite dec_church_ok.
+    eapply star_trans; [apply church_is_zero|]. destruct k; apply star_refl.
+  - eapply star_trans; [apply pair_foldl; auto; try reflexivity; apply church_closed|].
+    clear Hc. generalize 1. induction l as [|k r IH]; intros a; cbn [map fold_left]; [apply star_refl|].
+    eapply star_trans; [|apply IH].
+    assert (R : forall xs s t, red s t -> red (fold_left (fun acc x => App (App lc_num_church_add acc) x) xs s)
+                                               (fold_left (fun acc x => App (App lc_num_church_add acc) x) xs t)).
+    { induction xs; intros s t Hst; cbn [fold_left]; auto. apply IHxs. apply red_appl, red_appr. exact Hst. }
+    apply R. apply church_add.
+Qed.
+
+(** encoded lists of normal elements are normal forms *)
+Theorem C16_lists_normal : forall l, nfb (nums l) = true.
+Proof.
+  unfold nums. induction l as [|k r IH]; [reflexivity|]. cbn [map pair_list nfb is_abs negb andb].
+  rewrite church_nf, IH. reflexivity.
+Qed.
+Theorem C16_nor_returns : forall t v, red t v -> nfb v = true -> exists fuel c, reduce_m fuel NOR 0 t = Some (v, c).
+Proof. exact nor_normalises. Qed.
+Theorem C16_hno_returns : forall t v, red t v -> nfb v = true -> exists fuel c, reduce_m fuel HNO 0 t = Some (v, c).
+Proof. exact hno_reduce_normalises. Qed.
+
+(** in-kernel evaluation of the model of reduce (NOR, HNO, HAP) on every list of length <= 3 over {0, 1} *)
 Theorem C16_bounded_grid : forallb (fun b => b) list_grid = true.
 Proof. exact list_grid_ok. Qed.
 
+Print Assumptions C16_pair_basic.
+Print Assumptions C16_church_basic.
+Print Assumptions C16_scott_basic.
+Print Assumptions C16_parigot_basic.
+Print Assumptions C16_observers_any_payload.
 Print Assumptions C16_conversions.
+Print Assumptions C16_library_first_order.
+Print Assumptions C16_library_higher_order.
+Print Assumptions C16_numeral_instances.
+Print Assumptions C16_lists_normal.
+Print Assumptions C16_nor_returns.
+Print Assumptions C16_hno_returns.
 Print Assumptions C16_bounded_grid.
